@@ -780,6 +780,11 @@ def ult(a, b):
     assert a.w == b.w
     if a is b:
         return FALSE
+    # x / C < K  <=>  x < C*K   (C, K constants, no overflow)
+    if a.op == "udiv" and b.op == "const" and a.args[1].op == "const" and a.args[1].aux > 0:
+        prod = a.args[1].aux * b.aux
+        if prod <= mask(a.w):
+            return ult(a.args[0], const(prod, a.w))
     ra, rb = urange(a), urange(b)
     if ra[1] < rb[0]:
         return TRUE
@@ -836,6 +841,12 @@ def ite(c, a, b):
     # canonical polarity: if c is a negation (affine with const 1), swap
     if c.op == "aff" and (c.aux[0] & 1):
         return ite(bnot(c), b, a)
+    # ite(c, x ^ K, x) with K constant  =  x ^ (K & replicate(c)): stays in the affine form
+    if w > 1 and w <= 128:
+        ca, ea = aff_parts(a)
+        cb, eb = aff_parts(b)
+        if ca != cb and ea == eb:  # same linear part, different constant
+            return xor(b, and_const(replicate(c, w), ca ^ cb))
     # ite(c, x ^ d, x) = x ^ (c ? d : 0): push when d is constant
     return _mk("ite", w, (c, a, b))
 
